@@ -80,6 +80,21 @@ def run(pid, tier, args):
                 v.violation(p[2], {"property": pid, "kind": "advance", "edge": p[1]})
             elif p[0] == "DONE":
                 v.validated(int(p[1]))
+        adds = sorted(set("|".join(f) for f in vlib.parse_lines(res.lines, "ADD")))
+        if len(adds) < 20:
+            raise Infra("too few Position.Add instances printed (%d)" % len(adds))
+        af = os.path.join(wd, "add.txt")
+        open(af, "w").write("\n".join(adds) + "\n")
+        out = vlib.vh(vhbin, ["posadd-replay", af])
+        for line in out.splitlines():
+            p = line.split("\t")
+            if p[0] == "MISMATCH":
+                # (Position.Add is outside C04's statement - token positions never go through it: drift, not a violation)
+                if not v.notes.get("model_drift_position_add"):
+                    log("MODEL-DRIFT: lexer.Position.Add differs from Position.tla: " + p[2])
+                v.notes["model_drift_position_add"] = True
+            elif p[0] == "DONE":
+                v.notes["position_add"] = "%s instances of Position.Add (embedded text at every place of every input): %s differ from the specification's (behaviour outside the property; drift only)" % (p[1], p[2])
         v.sample({"advance_step": edges[len(edges) // 3], "format": "input|from char|to char|position before|position after"})
         # (b) token streams of real lexers
         cases = gen_lex.family(vlib.seed(), 10 if tier == "quick" else 60)
